@@ -128,7 +128,7 @@ class LockModel:
 
     def _guard_fields(self, g, rec):
         gname = rec['name']
-        ptr = [f for f in rec['fields'] if f['pointer'] and f['type']['ct'].rstrip(' *') == self.rec_name]
+        ptr = [f for f in rec['fields'] if f['pointer'] and pointee(f['type']['ct']) == self.rec_name]
         conv = [f for f in self.fns.values() if f.get('record') == gname and f['kind'] == 'conversion']
         if len(conv) != 1:
             raise AnalysisBroken('%s: operator bool not found' % gname)
@@ -156,7 +156,7 @@ class LockModel:
         cand = [f['name'] for f in ptr]
         self.ptr_field[g] = None
         for f in rec['fields']:
-            if f['pointer'] and f['type']['ct'].rstrip(' *') == self.rec_name:
+            if f['pointer'] and pointee(f['type']['ct']) == self.rec_name:
                 if self.ptr_field[g] is None or f['name'] == own:
                     self.ptr_field[g] = f['name']
         if isinstance(own, str) and own in cand:
@@ -251,6 +251,14 @@ class LockModel:
                 if k in kinds:
                     out.append((k, e))
         return out
+
+
+def pointee(ct):
+    """record named by a pointer type spelling: 'T *', 'T *const', 'const T *' -> 'T'"""
+    import re as _re
+    t = _re.sub(r'\s*\*\s*(const|volatile|\s)*$', '', ct.strip())
+    t = _re.sub(r'^(const|volatile)\s+', '', t)
+    return t.strip()
 
 
 def subst(v, sub):
@@ -404,7 +412,7 @@ class WordLockRules(LockModel):
         bits = {}
         for mode, name in (('X', 'LockX'), ('SIX', 'LockSIX'), ('S', 'LockS')):
             fn = self.method(self.rec_name, name)
-            ks = set()
+            ks, odd = set(), []
             for p, e in self.granting_rows(fn):
                 r = RowEval(None, p, e)
                 d = r.post_expr
@@ -415,7 +423,9 @@ class WordLockRules(LockModel):
                 elif is_const(d) and d[1] and not (d[1] & (d[1] - 1)):
                     ks.add(d[1])     # a constant written from a word certified to be zero
                 else:
-                    raise AnalysisBroken('%s::%s: granting write %s is not cur (|,+,^) constant' % (self.cls, name, show(d)))
+                    odd.append(d)    # judged by the row rules; the layout is taken from the recognised granting writes
+            if odd and not ks:
+                raise AnalysisBroken('%s::%s: granting write %s is not cur (|,+,^) constant' % (self.cls, name, show(odd[0])))
             if len(ks) != 1:
                 raise AnalysisBroken('%s::%s: %d different granting constants' % (self.cls, name, len(ks)))
             k = ks.pop()
@@ -581,7 +591,7 @@ class WordLockRules(LockModel):
         sink = self.sink
         for key, fn in sorted(self.fns.items()):
             role = self.roles.get(key)
-            if role is None and self.eng.inline_helper(fn):
+            if role is None and self.eng.private_helper(fn):
                 continue      # a helper: analysed in the context of its callers
             res = self.paths(fn)
             paths = []
@@ -989,6 +999,7 @@ class WordLockRules(LockModel):
         return False
 
     def acq_order(self, fn, p, e):
+        self.acq_last(fn, p, e)
         o = e['orders'][0]
         key = '%s %s(%s) order=%s' % (short(fn['name']), e['op'], self.word, o)
         if e['op'] == 'store':
@@ -998,6 +1009,20 @@ class WordLockRules(LockModel):
         self.sink.emit('C08.ACQ', 'ok' if good else 'violated', key, loc_of(e),
                        'the write that certifies the admission predicate must have acquire semantics: the new section '
                        'must synchronise with the release that ended every conflicting section')
+
+    def acq_last(self, fn, p, row):
+        """a grant is returned only after the admission predicate was certified; when the function keeps reading the word
+        after the granting write (announce first, then wait until the conflicting holders have drained), the read that
+        certifies the drained state is the one that must synchronise with their releases"""
+        later = [e for k, e in self.word_events(p, fn) if e['seq'] > row['seq'] and e['op'] != 'store' and e['op'] not in ('wait', 'notify_one', 'notify_all')]
+        if not later:
+            return
+        last = later[-1]
+        o = last['orders'][1] if (last['op'] == 'cas' and not last['success'] and len(last['orders']) > 1) else last['orders'][0]
+        good = has_acquire(o) or self.fence_after(p, last, 'acquire')
+        self.sink.emit('C08.ACQ', 'ok' if good else 'violated', '%s %s(%s) order=%s after the granting write' % (short(fn['name']), last['op'], self.word, o), loc_of(last),
+                       'the function returns its grant only after this read certified the word: it must have acquire semantics (it is the read that '
+                       'observes the releases of the holders that were still present at the granting write)')
 
     def rel_order(self, fn, p, e):
         o = e['orders'][0]
